@@ -1031,6 +1031,8 @@ func typeAssert(i *interpreter, instr *ssa.TypeAssert, itf iface) value {
 	} else if types.Identical(itf.t, instr.AssertedType) {
 		v = itf.v // extract value
 
+	} else if instr.CommaOk {
+		err = "interface conversion failed" // message unused for v, ok := x.(T); formatting it dominated type switches
 	} else {
 		err = fmt.Sprintf("interface conversion: interface is %s, not %s", itf.t, instr.AssertedType)
 	}
@@ -1075,7 +1077,15 @@ func callBuiltin(caller *frame, callpos token.Pos, fn *ssa.Builtin, args []value
 			params := fn.Type().(*types.Signature).Params()
 			src = conv(params.At(0).Type(), params.At(1).Type(), src)
 		}
-		return copy(args[0].([]value), src.([]value))
+		dstS, srcS := args[0].([]value), src.([]value)
+		if race != nil && race.on && EX != nil && EX.RaceCheck {
+			// copy reads the source cells and writes the destination cells (as Go's race detector sees it)
+			for i := 0; i < len(dstS) && i < len(srcS); i++ {
+				race.read(caller, &srcS[i], callpos)
+				race.write(caller, &dstS[i], callpos)
+			}
+		}
+		return copy(dstS, srcS)
 
 	case "clear":
 		switch m := args[0].(type) {
